@@ -32,6 +32,24 @@ CLAIMED.update({
 })
 
 
+def comp(text, tech):
+    return (text, tech, "DESIGN.md section 6")
+
+
+CLAIMED.update({
+    "C10": comp("The same configuration is executed in separate interpreter processes under different PYTHONHASHSEED values (and twice in-process); TLC (spec/TraceEq.tla) requires the state after every event, the per-timestep table, the task table and the event log to be identical. At design level TLC checks on the A and W families that which tasks an allocation round serves is a function of the state.",
+                 "TLC equality refinement of paired real executions (TraceEq) + TLC invariant I_C10_det on MC_Sim"),
+    "C11": comp("The specification contains start(k)/resume(u) as explicit pause/resume steps; TLC checks on the S family that they are invisible (core state and effective log unchanged) and that the log is complete and duplicate-free whatever the pause points. Real executions interrupted at every k (and random multi-splits) must coincide event by event and in all outputs with the uninterrupted execution (TraceEq), each interrupted trace is validated against the specification, and refused calls must raise and change nothing.",
+                 "TLC action property A_C11 on MC_Sim family S + TLC equality refinement of paired real executions (TraceEq) + trace validation of interrupted runs"),
+    "C14": comp("TLC enumerates every DAG on up to 4 ordered nodes x data-attribute variants x names/clocks; each is run through the real Planner/BatchPlanning and the (input, plan) record judged by TLC against PlanOK; TLC also checks that the records cover the whole enumerated input space. Random larger DAGs are added.",
+                 "TLC as oracle over an enumerated input space (spec/Pure.tla: PlanOK), weakest use of the technique (pure function)"),
+    "C16": comp("Every unit spelling x custom factor x value combination of the enumerated space is written as a JSON configuration, parsed by the three real Config.parse_* methods and judged by TLC against ConfigOK (same multiplier in all three sections, capacities/counts untouched, unit-independent volume).",
+                 "TLC as oracle over an enumerated input space (spec/Pure.tla: ConfigOK), weakest use of the technique (pure function)"),
+    "C18": comp("TLC explores every tier-move history of spec/MC_Buffer.tla (sizes 1..6, rates 1..3 on each side, capacities, both directions, round trips) with conservation, rate, completion, single-residence and refusal clauses; the same histories executed on a real Buffer are validated event by event against the specification and the clauses.",
+                 "TLC model checking of MC_Buffer + TLC trace validation of real Buffer move histories"),
+})
+
+
 def build():
     props = [json.loads(l) for l in open(os.path.join(VERIF, "properties.jsonl"))]
     checks, na = [], []
